@@ -389,9 +389,65 @@ struct P_C17a
     }
 };
 
+// emit mode for the compiled tier: patterns + strings + expected acceptance (reference; model automaton where F5 explains the real one)
+static int emit_patterns(const eng::Args& a)
+{
+    std::string params = "seed=" + std::to_string(a.seed) + " max_success=" + std::to_string(a.cases * 80) + " max_size=" + std::to_string(a.size) + " max_shrinks=0";
+    setenv("RC_PARAMS", params.c_str(), 1);
+    vj::Value cases = vj::Value::array(); std::set<std::string> seen; size_t want = size_t(a.cases);
+    rc::check("emit", [&]()
+    {
+        auto bytes = *rc::gen::container<std::vector<uint8_t>>(rc::gen::arbitrary<uint8_t>());
+        if (cases.size() >= want) return;
+        Choice ch(bytes); PG g(ch);
+        std::string pat = g.pattern();
+        if (pat.size() < 3 || pat.size() > 24 || seen.count(pat)) return;
+        rx::Parsed p = rx::parse_pattern(pat);
+        if (p.cls != rx::VALID || p.ops < 1) return;
+        rx::Dfa spec; if (!rx::ast_to_dfa(p.ast, spec) || spec.size() > 60) return;
+        Built b = build_real(pat, true);
+        if (b.threw || !b.accepted || b.predicted > 120) return;
+        std::string w; bool f5 = false;
+        const rx::Dfa* expect = &spec; rx::Dfa md;
+        if (!rx::equivalent(spec, b.dfa, w))
+        {
+            bm::Builder m(CAP); bm::Slice whole = m.build(p.ast, p.ast.root); if (m.overflow) return; m.mark_end_states(whole, 0); m.to_dfa(md);
+            std::string w2; if (!rx::equivalent(md, b.dfa, w2)) return;          // an unexplained difference is C03's business, not emitted
+            f5 = true; expect = &md;
+        }
+        seen.insert(pat);
+        eng::Rng rng = ch.fork();
+        std::set<std::string> strs; strs.insert("");
+        for (int k = 0; k < 40 && strs.size() < 12; ++k)
+        {
+            std::string s; int q = 0;
+            for (int step = 0; step < 10; ++step)
+            {
+                if (expect->label[size_t(q)] >= 0 && rng.chance(1, 3)) break;
+                std::vector<int> opts; for (int cc = 0; cc < 256; ++cc) if (expect->tr[size_t(q)][size_t(cc)] >= 0) opts.push_back(cc);
+                if (opts.empty()) break;
+                std::vector<int> pr; for (int x : opts) if (x >= 32 && x < 127) pr.push_back(x);
+                int cc = (!pr.empty() && rng.chance(7, 8)) ? pr[rng.below(uint32_t(pr.size()))] : opts[rng.below(uint32_t(opts.size()))];
+                s += char(cc); q = expect->tr[size_t(q)][size_t(cc)];
+            }
+            strs.insert(s);
+            if (!s.empty()) { std::string m2 = s; switch (rng.below(3)) { case 0: m2.pop_back(); break; case 1: m2 += m2.back(); break; default: m2[rng.below(uint32_t(m2.size()))] = char("ab01z"[rng.below(5)]); break; } strs.insert(m2); }
+            if (f5 && !w.empty()) strs.insert(w);
+        }
+        vj::Value ss = vj::Value::array();
+        for (auto& x : strs) { vj::Value y = vj::Value::object(); y.set("hex", vj::hex(x)); y.set("accept", rx::dfa_run(*expect, x) == 0); y.set("spec_accept", rx::dfa_run(spec, x) == 0); ss.push(y); }
+        vj::Value o = vj::Value::object(); o.set("pattern_hex", vj::hex(pat)); o.set("pattern", pat); o.set("f5", f5); o.set("dfa_size", (unsigned long long)b.predicted); o.set("strings", ss);
+        cases.push(o);
+    });
+    vj::Value doc = vj::Value::object(); doc.set("cases", cases);
+    if (!a.out.empty()) vj::save(a.out, doc); else printf("%s\n", doc.dump().c_str());
+    return cases.size() >= 1 ? 0 : 2;
+}
+
 int main(int argc, char** argv)
 {
     eng::Args a = eng::parse_args(argc, argv);
+    if (a.mode == "emit") { int rc = 2; eng::on_big_stack([&] { rc = emit_patterns(a); }); return rc; }
     int rc = 2;
     eng::on_big_stack([&]
     {
